@@ -49,7 +49,9 @@ fn owning<const N: usize, const B: usize>(ctx: &mut Ctx, flags: u8, nevents: usi
     virtio_drivers::verif::set_observer(Some(observer));
     let (indirect, event_idx) = (flags & 1 != 0, flags & 2 != 0);
     let (mut t, st) = ModelTransport::new(TState::new(DeviceType::Input, 0, 2, N as u32));
-    let mut q = match VirtQueue::<LedgerHal, N>::new(&mut t, 0, indirect, event_idx, false) { Ok(q) => q, Err(_) => return };
+    // bit 2 of `flags`: VIRTIO_F_ACCESS_PLATFORM negotiated for the queue (the platform ledger requires every unshare / dealloc to
+    // carry the same flag as the share / alloc)
+    let mut q = match VirtQueue::<LedgerHal, N>::new(&mut t, 0, indirect, event_idx, flags & 4 != 0) { Ok(q) => q, Err(_) => return };
     let qi = st.borrow().queues[0];
     let a = QAddr { desc: qi.desc, drv: qi.drv, dev: qi.dev, size: N };
     CURQ.with(|c| *c.borrow_mut() = a);
@@ -437,6 +439,10 @@ pub fn run(ctx: &mut Ctx) {
         ctx.tr.scenario(&format!("c19-owning-n8-b32-f{}", flags)); owning::<8, 32>(ctx, flags, n, false, 65535 - 3 * flags as u16);
         ctx.tr.scenario(&format!("c19-owning-n16-b16-f{}", flags)); owning::<16, 16>(ctx, flags, n, false, 32760);
         ctx.tr.scenario(&format!("c19-owning-oversize-n8-f{}", flags)); owning::<8, 32>(ctx, flags, n, true, 65520);
+    }
+    for flags in 4..8u8 {
+        ctx.tr.scenario(&format!("c19-owning-n4-b16-f{}", flags)); owning::<4, 16>(ctx, flags, n / 2, false, 65530);
+        ctx.tr.scenario(&format!("c19-owning-oversize-n8-f{}", flags)); owning::<8, 32>(ctx, flags, n / 2, true, 7);
     }
     for (i, feats) in [0u64, 1 << 28, 1 << 29, (1 << 28) | (1 << 29) | (1 << 32)].iter().enumerate() {
         ctx.tr.scenario(&format!("c19-input-{}", i)); input_events(ctx, *feats, n * 2);
